@@ -517,7 +517,7 @@ void LDAPrediction(matrix *mx,
         continue;
       }
     }
-    prediction->data[i][0] = (argmax+pos);
+    prediction->data[i][0] = (double)(argmax + lda->class_start);
   }
 
   /* Predict the the new projection in the feature space */
